@@ -264,7 +264,7 @@ func (k msgServer) monitorApprovalEvent(res *evmtypes.MsgEthereumTxResponse) err
 	logApprovalSigHash := crypto.Keccak256Hash(logApprovalSig)
 
 	for _, log := range res.Logs {
-		if log.Topics[0] == logApprovalSigHash.Hex() {
+		if len(log.Topics) > 0 && log.Topics[0] == logApprovalSigHash.Hex() {
 			return errorsmod.Wrapf(
 				erc20types.ErrUnexpectedEvent, "unexpected Approval event",
 			)
